@@ -534,6 +534,29 @@ def branches():
         m = nq.entangle.CHABoundaryBagging((2, 2))
         return float(m.solve(dm_w, maxiter=2, seed=s))
     add('CHABoundaryBagging.solve', 'dim=(2,2),maxiter=2', cha, lambda x: [] if (np.isfinite(x) and x > 0) else ['non-positive boundary'], heavy=True)
+    ops_ud = np.stack([np.array([[0, 1], [1, 0]]), np.array([[0, -1j], [1j, 0]]), np.array([[1, 0], [0, -1]]), np.eye(2)]).astype(np.complex128)
+
+    def ud_is_ud(nq, s):
+        try:
+            nq.unique_determine.check_UD_is_UD(ops_ud, 'udp', num_round=2, num_repeat_sgd=1, seed=s)
+            return 'passed'
+        except AssertionError:
+            return 'AssertionError'
+    add('check_UD_is_UD', 'pauli,udp,num_round=2', ud_is_ud, lambda x: [] if x == 'passed' else ['Pauli measurements reported as not UDP'], heavy=True)
+
+    def ud(nq, s):
+        r = nq.unique_determine.check_UD('udp', ops_ud, num_repeat=2, seed=s, dtype='float64')
+        return (bool(r[0]), float(r[1]))
+    add('check_UD', 'pauli,udp', ud, lambda x: [] if x[0] else ['Pauli measurements reported as not UDP'], heavy=True)
+    add('get_mps_dicke_transform_matrix', 'dim=2,num_qudit=3', lambda nq, s: nq.entangle.pureb_quantum.get_mps_dicke_transform_matrix(2, 3, seed=s)[0],
+        lambda x: [] if np.abs(np.linalg.norm(x, axis=1) - 1).max() < TOL else ['mps vectors not normalised'], heavy=True)
+
+    dm_iso = 0.7 * np.eye(4) / 4 + 0.3 * np.outer([1, 0, 0, 1], [1, 0, 0, 1]) / 2
+
+    def pureb_boundary(nq, s):
+        m = nq.entangle.PureBosonicExt(2, 2, 2, distance_kind='gellmann')
+        return float(m.get_boundary(dm_iso, xtol=0.05, converge_tol=1e-6, num_repeat=1, use_tqdm=False, seed=s))
+    add('PureBosonicExt.get_boundary', 'dims=(2,2),k=2,xtol=0.05', pureb_boundary, lambda x: [] if (np.isfinite(x) and x > 0) else ['non-positive boundary'], heavy=True)
     return B
 
 
